@@ -419,6 +419,87 @@ def rule_r5(chk):
     chk.ob("C01-R5", "fords.descriptors.SolutionVectors.get_curr_transition_indexes", ok, "current-dated state elements: (qid, position) for shift 0", dm.loc(gc))
 
 
+def rule_r11(chk, rid="C01-R11"):
+    chk.rule(rid, "the forward expansion is R_0 = P and R_k = -X J^(k-1) Ru for k = 1..forward, whether the memo list is empty, shorter than, "
+             "equal to or longer than the requested horizon: _get_solution_expansion evaluated finitely with symbolic matrices "
+             "(the memo is only ever extended by the terms that follow its last entry)", floor=4, shape_independent=True)
+    from .. import fin
+    m = chk.repo.mod(SOL)
+    f = m.func("_get_solution_expansion")
+    chk.saw(m, "_get_solution_expansion")
+
+    class _S(fin.FinObj):
+        """a product of named matrices with a sign; J carries its power"""
+        def __init__(self, factors, sign=1):
+            super().__init__(factors=tuple(factors), sign=sign, shape=(3, 3), dtype="float64", ndim=2)
+        def __matmul__(self, o):
+            if not isinstance(o, _S):
+                return NotImplemented
+            fs = list(self.factors)
+            for nm, pw in o.factors:
+                if fs and fs[-1][0] == nm == "J":
+                    fs[-1] = ("J", fs[-1][1] + pw)
+                else:
+                    fs.append((nm, pw))
+            return _S([x for x in fs if not (x[0] == "J" and x[1] == 0)], self.sign * o.sign)
+        def __neg__(self):
+            return _S(self.factors, -self.sign)
+        def __eq__(self, o):
+            return isinstance(o, _S) and (self.factors, self.sign) == (o.factors, o.sign)
+        def __hash__(self):
+            return hash((self.factors, self.sign))
+        def __repr__(self):
+            return ("-" if self.sign < 0 else "") + " ".join(nm if pw == 1 else f"{nm}^{pw}" for nm, pw in self.factors)
+    P, X, J, Ru = _S([("P", 1)]), _S([("X", 1)]), _S([("J", 1)]), _S([("Ru", 1)])
+    term = lambda k: _S([("X", 1)] + ([("J", k - 1)] if k > 1 else []) + [("Ru", 1)], -1)
+    funcs = {"_np.linalg.matrix_power": lambda a, k: _S([("J", k)] if k else []) if a == J else (_ for _ in ()).throw(fin.NotFinite("power of another matrix")),
+             "_np.array": lambda a, **kw: a, "_np.copy": lambda a: a, "_np.eye": lambda *a, **k: _S([]), "_np.identity": lambda *a, **k: _S([])}
+    for have, forward in ((0, 3), (2, 5), (3, 3), (4, 2), (0, 0), (1, 4)):
+        key = f"fords.solutions._get_solution_expansion[memo of {have}, forward {forward}]"
+        memo_list = [term(k) for k in range(1, have + 1)]
+        try:
+            got = fin.run_function(f, dict(zip(params(f), (memo_list, P, X, J, Ru, forward))), funcs)
+        except (fin.NotFinite, fin.Raised, TypeError, AttributeError, IndexError) as ex:
+            chk.undecided(rid, key, f"not finitely evaluable: {type(ex).__name__}: {ex}", m.loc(f))
+            continue
+        want = [P] + [term(k) for k in range(1, forward + 1)]
+        bad = None
+        if list(got) != want:
+            k_bad = next((i for i, (a, b) in enumerate(zip(list(got) + [None] * len(want), want)) if a != b), len(want))
+            bad = f"returns {list(got)}; entry {k_bad} must be {want[k_bad] if k_bad < len(want) else 'absent'} (R_k = -X J^(k-1) Ru)"
+        elif memo_list[:max(have, forward)] != [term(k) for k in range(1, max(have, forward) + 1)]:
+            bad = f"the memo list is left as {memo_list}, which is not the sequence R_1, R_2, ... any more: the next call returns wrong terms"
+        chk.ob(rid, key, bad is None, bad or f"R_0..R_{forward} as documented; memo afterwards holds R_1..R_{max(have, forward)}", m.loc(f), sure=True)
+
+
+def _through_wrappers(m, calls):
+    """a call whose arguments are parameters of the enclosing method (a private wrapper) is replaced by one call per call site of the
+    wrapper, with the parameters substituted by the actual arguments (one level)"""
+    import copy
+    out = []
+    funcs = dict(m.functions())
+    for q, c in calls:
+        f = funcs.get(q)
+        ps = params(f)[1:] if f is not None else []
+        used = {a.id for a in c.args if isinstance(a, ast.Name) and a.id in ps}
+        if not used:
+            out.append((q, c))
+            continue
+        name = q.split(".")[-1]
+        sites = [(g, x) for g, h in funcs.items() if g != q for x in ast.walk(h)
+                 if isinstance(x, ast.Call) and isinstance(x.func, ast.Attribute) and x.func.attr == name and isinstance(x.func.value, ast.Name) and x.func.value.id in ("self", "cls", "klass")]
+        if not sites:
+            out.append((q, c))
+            continue
+        for g, site in sites:
+            actual = dict(zip(ps, site.args))
+            actual.update({k.arg: k.value for k in site.keywords if k.arg})
+            new = ast.Call(func=c.func, args=[actual.get(a.id, a) if isinstance(a, ast.Name) else a for a in c.args], keywords=c.keywords)
+            ast.copy_location(new, site)
+            out.append((g, new))
+    return out
+
+
 def rule_r6(chk, rid="C01-R6"):
     from .. import memo
     chk.rule(rid, "forward expansions are memoised per representation: each memo list handed to _get_solution_expansion is used "
@@ -433,6 +514,7 @@ def rule_r6(chk, rid="C01-R6"):
             chk.saw(m, q)
     if not calls:
         raise AnalysisError("anchor vanished: calls to _get_solution_expansion")
+    calls = _through_wrappers(m, calls)
     for q, ok, detail in memo.memo_arg_findings(calls):
         chk.ob(rid, f"fords.solutions.{q}[memo]", ok, detail, m.loc(dict(calls)[q]))
     # invalidation: any method of Solution that assigns one of the matrices used as inputs must also reset the memo
@@ -470,6 +552,7 @@ def run(chk):
     chk.guard(rule_r4, chk)
     chk.guard(rule_r5, chk)
     chk.guard(rule_r6, chk)
+    chk.guard(rule_r11, chk)
     from . import c02
     chk.guard(c02.rule_r6, chk, rid="C01-R7", sites=(1,))
     from . import c06
